@@ -633,7 +633,7 @@ func (e *episode) topUpLocalTail() int {
 	}
 }
 
-const sigF9b = "C12/F9b:snapshot-after-failed-checkpoint-reads-restarted-wal-up-to-stale-offset:snapshot-differs-from-l0-chain-at-its-txid"
+const sigF9b = "C12/F9b:snapshot-after-failed-checkpoint-does-not-match-its-position:" // + mode of that checkpoint
 
 // ltxWALRange decodes the WAL salts and range recorded in an LTX file's header.
 func ltxWALRange(path string) (salt1, salt2 uint32, off, size int64, ok bool) {
@@ -719,7 +719,7 @@ func snapshotOracle(label string, files map[string]ltx.TXID, arcDir, scratch str
 			if ss1, ss2, _, ssz, ok := ltxWALRange(p); ok {
 				if ls1, ls2, lo, lsz, ok := ltxWALRange(filepath.Join(arcDir, "ltx", "0", ltx.FormatFilename(n, n))); ok && (ss1 != ls1 || ss2 != ls2) {
 					if sigPrefix == "C12/" {
-						sig = sigF9b
+						sig = sigF9b + snapMode(uint64(n))
 					}
 					extra = fmt.Sprintf("; the snapshot was read from WAL generation %08x/%08x (%d bytes of it) while L0 %d ends at offset %d of generation %08x/%08x", ss1, ss2, ssz, uint64(n), lo+lsz, ls1, ls2)
 				}
@@ -1754,13 +1754,14 @@ func cmdConc(args []string) error {
 		}
 	}
 	if *ckptfail && *only < 0 {
-		traceReset()
-		d, err := scenarioCkptFail(*out)
-		emitTrace(cw, "ckptfail")
-		if err != nil {
-			cfdetail = "scenario could not be completed: " + err.Error()
-		} else {
-			cfdetail = d
+		for _, mode := range []string{litestream.CheckpointModeFull, litestream.CheckpointModeRestart, litestream.CheckpointModePassive, litestream.CheckpointModeTruncate} {
+			traceReset()
+			d, err := scenarioCkptFail(*out, mode)
+			emitTrace(cw, "ckptfail")
+			if err != nil {
+				d = "scenario could not be completed: " + err.Error()
+			}
+			cfdetail += mode + ": " + d + " | "
 		}
 	}
 	if *halfinit && *only < 0 {
